@@ -9,7 +9,7 @@ use crate::kinds::{from_spec, mk_spec, payload_len, with_local};
 use crate::model::MonitorReader;
 use crate::spec::avp as sa;
 use crate::spec::bytes_eq;
-use crate::{check, nd, witness};
+use crate::{check, nd, require, witness};
 use rl2tp::avp::AVP;
 use rl2tp::common::{SliceReader, VecWriter};
 
@@ -37,7 +37,7 @@ pub fn dec_body<const N: usize>(t: u16) {
 
     let mut r = SliceReader::from(rec);
     let res = AVP::try_read_greedy(&mut r);
-    check!(res.len() == 1, "C05,C15: a single well-delimited record yields exactly one result");
+    require!(res.len() == 1, "C05,C15: a single well-delimited record yields exactly one result");
     check!(rl2tp::common::Reader::len(&r) == 0, "C08: the record's octets are consumed exactly");
     let spec = sa::spec_leaf(t, &rec[6..]);
     check!(res[0].is_ok() == spec.ok, "C05: the per-type decoder accepts a payload iff the specification does");
@@ -57,7 +57,7 @@ pub fn decm_body<const N: usize>(t: u16) {
     let spec = sa::spec_leaf(t, &rec[6..]);
     let mut m = MonitorReader::from(rec);
     let res_m = AVP::try_read_greedy(&mut m);
-    check!(res_m.len() == 1, "C02: result is the same for every conforming reader (count)");
+    require!(res_m.len() == 1, "C02: result is the same for every conforming reader (count)");
     check!(res_m[0].is_ok() == spec.ok, "C02: result is the same for every conforming reader (accept)");
     check!(sa::result_matches(&res_m[0], &spec), "C02: result is the same for every conforming reader (value)");
     check!(m.pos == rec.len(), "C02,C08: the monitoring reader is left at the end of the record");
@@ -73,7 +73,10 @@ pub fn decm_body<const N: usize>(t: u16) {
 /// not constant-folded and the writer content would otherwise be a 40-way
 /// merge, DESIGN.md §2).  `total` is the specified size of the record.
 pub fn reconcretize(data: &[u8], total: usize, t: u16, hidden: bool) -> [u8; MAXREC] {
-    check!(data.len() == total, "C06,C07: the encoder emits header plus payload of the specified size, nothing else");
+    if data.len() != total {
+        check!(false, "C06,C07: the encoder emits header plus payload of the specified size, nothing else");
+        return [0u8; MAXREC];
+    }
     let o1: u8 = ((((total >> 8) & 3) as u8) << 6) | 1 | if hidden { 2 } else { 0 };
     check!(data[0] == o1, "C06,C07: first AVP octet = high length bits, mandatory bit set, hidden bit only on hidden AVPs, reserved bits zero");
     check!(data[1] == (total & 0xff) as u8, "C06,C07: the AVP's 10-bit length field equals the octets emitted for it");
@@ -118,7 +121,7 @@ pub fn renc_body<const N: usize>(t: u16) {
     let rec = &buf[..6 + N];
     let spec = sa::spec_leaf(t, &rec[6..]);
     let res = AVP::try_read_greedy(&mut SliceReader::from(rec));
-    check!(res.len() == 1, "C05,C15: a single well-delimited record yields exactly one result");
+    require!(res.len() == 1, "C05,C15: a single well-delimited record yields exactly one result");
     check!(sa::result_matches(&res[0], &spec), "C05,C20: decoded value / reported error equals the specified one");
     nd::assume(spec.ok);
     let v = from_spec(&spec.v);
@@ -134,7 +137,7 @@ pub fn renc_body<const N: usize>(t: u16) {
     sa::spec_record(&spec.v, &mut expect);
     check!(bytes_eq(rec2, &expect), "C06,C10: re-encoded octets are the specified canonical record");
     let res2 = AVP::try_read_greedy(&mut SliceReader::from(rec2));
-    check!(res2.len() == 1, "C10: the re-encoded AVP decodes to one result");
+    require!(res2.len() == 1, "C10: the re-encoded AVP decodes to one result");
     let spec2 = sa::spec_leaf(t, &rec2[6..]);
     check!(spec2.ok && sa::result_matches(&res2[0], &spec2), "C10: the re-encoded AVP decodes to the specified value");
     check!(sa::sv_eq(&spec2.v, &spec.v), "C10: decoding the re-encoded AVP gives the same value");
@@ -163,7 +166,7 @@ pub fn enc_body(t: u16, n: usize) {
     w.data.extend_from_slice(&prefix);
     a.write(&mut w);
 
-    check!(w.data.len() == PREFIX + total, "C07,C09: the encoder appends header plus payload, nothing else");
+    require!(w.data.len() == PREFIX + total, "C07,C09: the encoder appends header plus payload, nothing else");
     check!(w.data[0] == prefix[0] && w.data[1] == prefix[1] && w.data[2] == prefix[2], "C09: octets already in the writer are untouched");
     check!(6 + a.get_length() == total, "C07: 6 + get_length() equals the octets written for the AVP");
     let buf = reconcretize(&w.data[PREFIX..], total, t, false);
@@ -180,7 +183,7 @@ pub fn enc_body(t: u16, n: usize) {
 
     // C03: decode gives the value back
     let res = AVP::try_read_greedy(&mut SliceReader::from(rec));
-    check!(res.len() == 1, "C03: an encoded AVP decodes to exactly one result");
+    require!(res.len() == 1, "C03: an encoded AVP decodes to exactly one result");
     match &res[0] {
         Ok(b) => check!(sa::same(b, &sv), "C03: encode then decode returns the same AVP (field for field)"),
         Err(_) => check!(false, "C03: an encoded AVP decodes successfully"),
